@@ -315,6 +315,9 @@ fn c06() {
     // objects main keeps alive until the threads are joined: "at the moment" (the entry must be
     // appended although a flush guard is still outstanding), and drops that must change nothing
     add(json!({"hold": ["g1"], "threads": [["owner"], ["f1"]], "pb": pb}));
+    // the held flush guard is Debug-formatted by another thread while the drops run
+    add(json!({"hold": ["g1"], "format": "g1", "threads": [["owner"], ["f1"]], "pb": pb}));
+    add(json!({"hold": ["g1"], "format": "g1", "threads": [["owner", "f1"]], "pb": pb}));
     add(json!({"hold": ["g1"], "threads": [["h1"], ["h2"], ["f1"]], "pb": pb}));
     add(json!({"hold": ["g1", "f2"], "threads": [["owner"], ["f1"]], "pb": pb}));
     add(json!({"hold": ["f1"], "threads": [["owner"], ["g1"]], "pb": pb}));
